@@ -41,10 +41,17 @@ func harnessC17Chain() {
 	ctx := context.Background()
 	st := NewMemoryStore()
 	var fails []c17Fail
-	bus := New(WithStore(st), WithUpcastErrorHandler(func(t string, d json.RawMessage, err error) {
+	onUpErr := func(t string, d json.RawMessage, err error) {
 		tr, _ := c17Trace(d)
 		fails = append(fails, c17Fail{t, tr})
-	}))
+	}
+	var bus *EventBus
+	if vBool() {
+		bus = New(WithStore(st), WithUpcastErrorHandler(onUpErr))
+	} else {
+		bus = New(WithStore(st))
+		bus.SetUpcastErrorHandler(onUpErr)
+	}
 	ne := vInt(0, E)
 	failAt := vInt(-1, ne-1)
 	type edge struct{ f, t int }
